@@ -468,3 +468,146 @@ Qed.
 
 Lemma good_kv : forall w a b, kv b a -> Good w a -> Good w b.
 Proof. intros w a b Hkv H. eapply good_trans; [exact H|]. apply good_of_kv. exact Hkv. Qed.
+
+(* ---------- primitives that do not touch the view ---------- *)
+
+Lemma kv_cache_add : forall w ir n, kv (cache_add w ir n) w.
+Proof. intros. repeat split. Qed.
+Lemma kv_cache_remove : forall w ir n, kv (fst (cache_remove w ir n)) w.
+Proof. intros. repeat split. Qed.
+Lemma kv_tree_add_ev : forall w o i, kv (tree_add_ev w o i) w.
+Proof. intros. repeat split. Qed.
+Lemma kv_tree_disc_ev : forall w o i, kv (tree_disc_ev w o i) w.
+Proof. intros. repeat split. Qed.
+Lemma kv_symx_upd : forall w bi d, kv (symx_upd w bi d) w.
+Proof. intros. repeat split. Qed.
+Lemma kv_force : forall w n, kv (fst (force w n)) w.
+Proof.
+  intros. unfold force. destruct (lt_get (cur_ivs w n) (length (kids w n)) (tree w n)) as [t idx].
+  repeat split.
+Qed.
+Lemma kv_set_cache : forall w f, kv (set_cache w f) w.
+Proof. intros. repeat split. Qed.
+
+Lemma good_setn : forall w n x,
+  nk x = nk (getn w n) -> nname x = nname (getn w n) -> npay x = npay (getn w n) ->
+  Good w (setn w n x).
+Proof.
+  intros w n x H1 H2 H3. apply good_frame.
+  - intros y. rewrite getn_setn. destruct (Z.eqb_spec y n) as [->|Hne]; auto.
+  - intros y Hy. rewrite has_setn. destruct (y =? n); auto.
+  - intros y. reflexivity.
+  - intros y. reflexivity.
+  - intros m y _ _. tauto.
+Qed.
+
+Lemma good_set_par : forall w c q, Good w (set_par w c q).
+Proof. intros. unfold set_par. apply good_setn; reflexivity. Qed.
+
+Lemma good_set_kids : forall w p l,
+  (kindof w p = KMod -> forall y, kindof w y = KSym -> (In y l <-> In y (kids w p))) ->
+  Good w (set_kids w (upd (kids w) p l)).
+Proof.
+  intros w p l H. apply good_frame.
+  - intros y. auto.
+  - intros y Hy. exact Hy.
+  - intros y. reflexivity.
+  - intros y. reflexivity.
+  - intros m y Hm Hy. cbn [set_kids kids]. destruct (Z.eq_dec m p) as [->|Hne].
+    + rewrite upd_same. apply H; assumption.
+    + rewrite upd_other by exact Hne. tauto.
+Qed.
+
+Lemma good_set_kids_nonmod : forall w p l, kindof w p <> KMod -> Good w (set_kids w (upd (kids w) p l)).
+Proof. intros w p l H. apply good_set_kids. intros Hk. contradiction. Qed.
+
+(* ---------- mod_index_add / mod_index_discard ---------- *)
+
+Lemma mid_notsym : forall w m n, kindof w n <> KSym -> mod_index_discard w m n = w.
+Proof. intros w m n H. unfold mod_index_discard. destruct (kindof w n); try reflexivity. congruence. Qed.
+Lemma mia_notsym : forall w m n, kindof w n <> KSym -> mod_index_add w m n = w.
+Proof. intros w m n H. unfold mod_index_add. destruct (kindof w n); try reflexivity. congruence. Qed.
+
+Lemma mid_nodes : forall w m n, nodes (mod_index_discard w m n) = nodes w.
+Proof.
+  intros. unfold mod_index_discard. destruct (kindof w n); try reflexivity.
+  destruct (referent (getn w n)); reflexivity.
+Qed.
+Lemma mid_kids : forall w m n, kids (mod_index_discard w m n) = kids w.
+Proof.
+  intros. unfold mod_index_discard. destruct (kindof w n); try reflexivity.
+  destruct (referent (getn w n)); reflexivity.
+Qed.
+Lemma mia_nodes : forall w m n, nodes (mod_index_add w m n) = nodes w.
+Proof.
+  intros. unfold mod_index_add. destruct (kindof w n); try reflexivity.
+  destruct (referent (getn w n)); reflexivity.
+Qed.
+Lemma mia_kids : forall w m n, kids (mod_index_add w m n) = kids w.
+Proof.
+  intros. unfold mod_index_add. destruct (kindof w n); try reflexivity.
+  destruct (referent (getn w n)); reflexivity.
+Qed.
+
+Lemma mid_nix : forall w m n, kindof w n = KSym ->
+  nix (mod_index_discard w m n) = upd (nix w) m (bucket_discard Z.eqb (nname (getn w n)) n (nix w m)).
+Proof.
+  intros w m n H. unfold mod_index_discard. rewrite H. destruct (referent (getn w n)); reflexivity.
+Qed.
+Lemma mid_rix : forall w m n, kindof w n = KSym ->
+  rix (mod_index_discard w m n) =
+  match referent (getn w n) with
+  | Some b => upd (rix w) m (bucket_discard Z.eqb b n (rix w m))
+  | None => rix w
+  end.
+Proof.
+  intros w m n H. unfold mod_index_discard. rewrite H. destruct (referent (getn w n)); reflexivity.
+Qed.
+Lemma mia_nix : forall w m n, kindof w n = KSym ->
+  nix (mod_index_add w m n) = upd (nix w) m (bucket_add Z.eqb (nname (getn w n)) n (nix w m)).
+Proof.
+  intros w m n H. unfold mod_index_add. rewrite H. destruct (referent (getn w n)); reflexivity.
+Qed.
+Lemma mia_rix : forall w m n, kindof w n = KSym ->
+  rix (mod_index_add w m n) =
+  match referent (getn w n) with
+  | Some b => upd (rix w) m (bucket_add Z.eqb b n (rix w m))
+  | None => rix w
+  end.
+Proof.
+  intros w m n H. unfold mod_index_add. rewrite H. destruct (referent (getn w n)); reflexivity.
+Qed.
+
+Lemma mid_getn : forall w m n y, getn (mod_index_discard w m n) y = getn w y.
+Proof. intros. unfold getn. rewrite mid_nodes. reflexivity. Qed.
+Lemma mia_getn : forall w m n y, getn (mod_index_add w m n) y = getn w y.
+Proof. intros. unfold getn. rewrite mia_nodes. reflexivity. Qed.
+Lemma mid_has : forall w m n y, has (mod_index_discard w m n) y = has w y.
+Proof. intros. unfold has. rewrite mid_nodes. reflexivity. Qed.
+Lemma mia_has : forall w m n y, has (mod_index_add w m n) y = has w y.
+Proof. intros. unfold has. rewrite mia_nodes. reflexivity. Qed.
+
+(* index exactness after discarding / adding one symbol, at the level of IxOK *)
+Lemma rix_discard_ok : forall d R R' (r : option id) x,
+  IxOK d R -> (forall y k, R' y k <-> R y k /\ ~ (y = x /\ r = Some k)) ->
+  IxOK (match r with Some b => bucket_discard Z.eqb b x d | None => d end) R'.
+Proof.
+  intros d R R' r x H He. destruct r as [b|].
+  - eapply IxOK_discard; [exact H|]. intros y k. rewrite He. split.
+    + intros [A B]. split; [exact A|]. intros [C D]. apply B. split; [exact C|]. rewrite D. reflexivity.
+    + intros [A B]. split; [exact A|]. intros [C D]. apply B. split; [exact C|]. injection D as D. symmetry; exact D.
+  - eapply IxOK_ext; [|exact H]. intros y k. rewrite He. split; [|tauto].
+    intros A. split; [exact A|]. intros [_ D]. discriminate.
+Qed.
+
+Lemma rix_add_ok : forall d R R' (r : option id) x,
+  IxOK d R -> (forall y k, R' y k <-> R y k \/ (y = x /\ r = Some k)) ->
+  IxOK (match r with Some b => bucket_add Z.eqb b x d | None => d end) R'.
+Proof.
+  intros d R R' r x H He. destruct r as [b|].
+  - eapply IxOK_add; [exact H|]. intros y k. rewrite He. split.
+    + intros [A|[C D]]; [tauto|]. right. split; [exact C|]. injection D as D. symmetry; exact D.
+    + intros [A|[C D]]; [tauto|]. right. split; [exact C|]. rewrite D. reflexivity.
+  - eapply IxOK_ext; [|exact H]. intros y k. rewrite He. split; [tauto|].
+    intros [A|[_ D]]; [exact A|discriminate].
+Qed.
